@@ -45,7 +45,11 @@ def check(ctx):
     observers.transparent_loop(ctx, 'R12', rc, loop, var, what='row counter')
     n += 1
     # checkpoint notifier: generator expression (row for row in rows)
-    step = repo.func('dataflows.processors.checkpoint:_notify_checkpoint_saved.step')
+    steps_ = repo.find_funcs(module='dataflows.processors.checkpoint',
+                             pred=lambda f: f.all_params == ['package'] and f.is_generator and f.cls is None)
+    if len(steps_) != 1:
+        raise AnalysisError('checkpoint: the notifier package step was not found by role (%d candidates)' % len(steps_))
+    step = steps_[0]
     gens = [g for g in ast.walk(step.node) if isinstance(g, ast.GeneratorExp)]
     ok = len(gens) == 1 and len(gens[0].generators) == 1 and not gens[0].generators[0].ifs and \
         isinstance(gens[0].elt, ast.Name) and isinstance(gens[0].generators[0].target, ast.Name) and \
